@@ -509,8 +509,8 @@ func c10GenInput(r *vRand, idx int, tier string, shortCV, rawUTF8 bool, bigDone 
 			errHex = map[string]string{bk.Key: hex.EncodeToString([]byte("bad response code: 400 - " + c10InvalidString(r)))}
 		}
 	}
-	// one 1 MB string per quick run (the first buffer-only case after case 0), one per 40 cases in the thorough tier
-	big := !socket && idx >= 1 && !*bigDone || (tier == "thorough" && idx%40 == 1)
+	// one 1 MB string per quick run (the first buffer-only case after case 0), one per 250 cases in the thorough tier
+	big := !socket && idx >= 1 && !*bigDone || (tier == "thorough" && idx%250 == 1)
 	*bigDone = *bigDone || big
 	in := &c10Input{DS: ds, Socket: socket && !big, ErrHex: errHex}
 	in.Pipeline = in.Socket && r.chance(1, 3)
